@@ -179,6 +179,22 @@ class Machine:
                 if hit:
                     inline.add(g['n'])
                     changed = True
+        # helpers outside the class (file-level statics) that are handed a tracked stack by reference: interpreted at the call, the
+        # parameter naming the stack
+        alias = self.d.setdefault('stack_alias', {})
+        srcs = [self.f] + [g for g in cands if g['n'] in inline]
+        for host in srcs:
+            for e in fn_exprs(host):
+                if e.get('k') != 'call' or not e.get('fn') or e.get('obj') is not None:
+                    continue
+                for ai, a in enumerate(e.get('a', [])):
+                    a_ = strip_lv(a)
+                    sn = a_.get('f') if a_.get('k') == 'mem' else a_.get('n') if a_.get('k') == 'var' else None
+                    if sn in self.d.get('stacks', {}):
+                        for g in self.prog.fn(e['fn'], e.get('sig')):
+                            if g.get('body') and g.get('file') == self.f.get('file') and ai < len(g['params']) and T(g, g['params'][ai]['t']).get('ref'):
+                                inline.add(g['n'])
+                                alias[g['params'][ai]['n']] = sn
         self.d['inline'] = inline
 
     # ------------------------------------------------------------ setup
@@ -275,6 +291,8 @@ class Machine:
             return e['f']
         if e.get('k') == 'var' and e.get('n') in self.d['stacks']:
             return e['n']
+        if e.get('k') == 'var' and e.get('vk') == 'param' and e.get('n') in self.d.get('stack_alias', {}):
+            return self.d['stack_alias'][e['n']]
         return None
 
     def const_array(self, vid):
@@ -665,12 +683,30 @@ class Machine:
             if s.get('cv') is not None and s['cv'].get('init') is not None:
                 # `if (T x = e)`: x is a local of this statement
                 env.locals[s['cv']['id']] = self.ev(s['cv']['init'], env, c)
-            cv = self.ev(s['c'], env, c)
-            branches = []
-            if cv is U:
-                branches = [(env.copy(), True), (env, False)]
+            cnd = strip(s['c'])
+            negc = False
+            while cnd.get('k') in ('paren',) or (cnd.get('k') == 'un' and cnd.get('op') == '!') or (cnd.get('k') == 'cast' and cnd.get('ck') in ('IntegralToBoolean',)):
+                if cnd.get('k') == 'un':
+                    negc = not negc
+                cnd = strip(cnd['e'])
+            inl = self.d.get('inline', ())
+            has_inline = any(w.get('k') == 'call' and (w.get('pq') or w.get('fn') or '').split('::')[-1] in inl for w in walk_expr(s['c']))
+            if has_inline and cnd.get('k') == 'call' and (cnd.get('pq') or cnd.get('fn') or '').split('::')[-1] in inl:
+                # the condition is a call of a helper that changes the tracked state: run it (it may fork) and branch on its result
+                branches = []
+                for e2, v in self.exec_call(cnd, env, c, True):
+                    if v is U:
+                        branches += [(e2.copy(), True), (e2, False)]
+                    else:
+                        branches.append((e2, bool(v) != negc))
+            elif has_inline:
+                raise Stuck('call of a state-changing helper inside a compound condition at line %d' % s.get('l', 0))
             else:
-                branches = [(env, bool(cv))]
+                cv = self.ev(s['c'], env, c)
+                if cv is U:
+                    branches = [(env.copy(), True), (env, False)]
+                else:
+                    branches = [(env, bool(cv))]
             for e1, tr in branches:
                 if tr:
                     for r in self.exec_stmt(s['then'], e1, c):
@@ -743,7 +779,11 @@ class Machine:
             return
         if k == 'return':
             if s.get('e') is not None:
-                self.ev(s['e'], env, c)
+                outs = list(self.exec_expr(s['e'], env, c, want_value=True))
+                for e2, v in outs:
+                    e2.locals['#ret'] = v           # value handed back to an inlining call site
+                    yield e2, 'return'
+                return
             yield env, 'return'
             return
         if k == 'break':
@@ -908,12 +948,17 @@ class Machine:
             saved_f = self.f
             results = []
             self.f = g
+            # scalar arguments become the callee's parameters (per-iteration locals of the environment)
+            for p_, a in zip(g.get('params', []), e.get('a', [])):
+                env.locals[p_['id']] = self.ev(a, env, c)
             try:
                 for e2, ctl in self.exec_stmt(g['body'], env, c):
-                    results.append(e2)
+                    results.append((e2, e2.locals.pop('#ret', U) if ctl == 'return' else U))
             finally:
                 self.f = saved_f
-            return out(results)
+            if want_value:
+                return iter(results)
+            return iter([e2 for e2, v in results])
         if e.get('k') == 'call' and not e.get('clsp') and (short in ('memchr', 'strchr') or short in self.d.get('pure', ()) or self.pure_scalar(e)):
             return out([env], self.ev_call(e, env, c))       # side-effect-free: its value is wanted (table look-ups)
         for a in e.get('a', []):
